@@ -52,6 +52,16 @@ type stats struct {
 
 var st = stats{Rewrites: map[string]int{}}
 
+// oldModule: the package's module declares a language version below go1.21 (or none).
+func oldModule(pkg *packages.Package) bool {
+	if pkg.Module == nil || pkg.Module.GoVersion == "" {
+		return true
+	}
+	var major, minor int
+	fmt.Sscanf(pkg.Module.GoVersion, "%d.%d", &major, &minor)
+	return major == 1 && minor < 21
+}
+
 func fatal(format string, a ...any) {
 	fmt.Fprintf(os.Stderr, "vinstr: "+format+"\n", a...)
 	os.Exit(2)
@@ -597,7 +607,7 @@ func main() {
 	}
 	overlay := map[string]string{}
 	cfg := &packages.Config{
-		Mode: packages.NeedName | packages.NeedFiles | packages.NeedCompiledGoFiles | packages.NeedSyntax | packages.NeedTypes | packages.NeedTypesInfo | packages.NeedImports,
+		Mode: packages.NeedName | packages.NeedFiles | packages.NeedCompiledGoFiles | packages.NeedSyntax | packages.NeedTypes | packages.NeedTypesInfo | packages.NeedImports | packages.NeedModule,
 		Dir:  *flagDir,
 		Env:  os.Environ(),
 	}
@@ -679,9 +689,11 @@ func main() {
 				fatal("%s: print: %v", fn, err)
 			}
 			src := buf.Bytes()
-			if r.usedVrt && !bytes.Contains(src, []byte("//go:build")) {
+			if r.usedVrt && !bytes.Contains(src, []byte("//go:build")) && oldModule(pkg) {
 				// generic vrt helpers need go1.18+ language features even when the module's
-				// go.mod declares an older version: a go:build line sets the file's version
+				// go.mod declares an older version: a go:build line sets the file's version.
+				// ONLY for such old modules: the line would otherwise DOWNGRADE a newer module's
+				// files to go1.21 semantics (per-loop instead of per-iteration loop variables).
 				src = append([]byte("//go:build go1.21\n\n"), src...)
 				buf.Reset()
 				buf.Write(src)
